@@ -21,7 +21,7 @@ RULE = (
   "non-trivial = array key with >=1 valid and >=1 invalid world after a non-empty history"
 )
 ASSUMPTIONS = ["MuJoCo mj_resetDataKeyframe is the reference", "float32 rounding of keyframe values (1e-6)"]
-BUDGET = {"quick": dict(examples=240, seconds=150, workers=16), "thorough": dict(examples=5000, seconds=1500, workers=16)}
+BUDGET = {"quick": dict(examples=240, seconds=420, workers=16), "thorough": dict(examples=5000, seconds=1500, workers=16)}
 _STATE = c13._STATE
 
 
